@@ -25,6 +25,8 @@ func init() {
 			{ID: "R01.7", Title: "lazily compiled boolean operators yield a Bool or an error, like their eager implementations", Floor: 2, Run: ruleR017},
 			{ID: "R16.5", Title: "scope links ask their parent for the looked up name itself (see C16)", Floor: 5, Run: ruleR165},
 			{ID: "R01.4", Title: "captured-name agreement between parseLiteral (emitted identifier names) and AddArgs (recorded outer names)", Floor: 1, Run: ruleR014},
+			{ID: "R02.7", Title: "optimizer: subtree promotion only under the generated code's own condition (see C02)", Floor: 2, Run: ruleR027},
+			{ID: "R02.8", Title: "optimizer: first-match folding of switch nodes (see C02)", Floor: 0, Run: ruleR028},
 		},
 	})
 	register(&Property{
@@ -48,6 +50,7 @@ func init() {
 			{ID: "R01.7", Title: "lazily compiled boolean operators yield a Bool or an error, like the eager implementations the folder executes (see C01)", Floor: 2, Run: ruleR017},
 			{ID: "R02.5", Title: "panic containment: optimizer code runs only inside parser2.Optimize, which recovers and restores the AST", Floor: 10, Run: ruleR025},
 			{ID: "R02.7", Title: "subtree promotion: a node is replaced by one of its children only under the condition under which the generated code returns that child's value (roles read from the generator)", Floor: 2, Run: ruleR027},
+			{ID: "R02.8", Title: "first-match folding: a folding loop over the cases of a switch takes a case only on established equality and moves on only past cases decided negative", Floor: 0, Run: ruleR028},
 		},
 	})
 	register(&Property{
@@ -87,6 +90,8 @@ func init() {
 			{ID: "R04.9", Title: "error decoration that scales with the configuration is added once, not once per nesting level", Floor: 1, Run: ruleR049},
 			{ID: "R04.10", Title: "optional handlers are called at Generate time only under their nil test", Floor: 1, Run: ruleR0410},
 			{ID: "R04.11", Title: "a scope lookup asks its parent scope at most once on every path (no exponential name resolution)", Floor: 4, Run: ruleR0411},
+			{ID: "R04.12", Title: "Generate-time execution of program-defined code (constant closures, methods on constants) is bounded by a budget", Floor: 3, Run: ruleR0412},
+			{ID: "R04.13", Title: "no unchecked (single-value) type assertion on a value of the language in Generate-time code", Floor: 1, Run: ruleR0413},
 			{ID: "R03.3", Title: "operator levels are entered in range of the operator table (see C03)", Floor: 3, Run: ruleR033},
 		},
 	})
@@ -106,6 +111,7 @@ func init() {
 			{ID: "R05.6", Title: "fresh value stacks (recursion guard restarts) only at the listed sites", Floor: 8, Run: ruleR056},
 			{ID: "R05.8", Title: "recursion guard: the stack grows only below a constant bound", Floor: 1, Run: ruleR058},
 			{ID: "R05.9", Title: "try/catch evaluates the try expression under a recover", Floor: 2, Run: ruleR059},
+			{ID: "R10.1d", Title: "closure values built by built-ins during an evaluation keep no mutable state (no store into captured variables)", Floor: 1, Run: ruleR101closureValues},
 			{ID: "R05.10", Title: "a recovered panic is reported on every path (error result set, callback called or panic raised again)", Floor: 8, Run: ruleR0510},
 		},
 	})
@@ -120,7 +126,12 @@ func init() {
 			{ID: "R06.1", Title: "value stacks are goroutine confined at MapAuto/FilterAuto/Merge", Floor: 3, Run: ruleR061},
 			{ID: "R06.3", Title: "iterator pipelines with callbacks are constructed per iteration (inside the list producer)", Floor: 15, Run: ruleR063},
 			{ID: "R06.2", Title: "the materialisation cache of List (items, itemsPresent) is accessed under its mutex only; iterable/size are immutable after construction", Floor: 8, Run: ruleR062},
+			{ID: "R06.4", Title: "deep traversals of language values are complete: no success before the elements of a container were handed to the recursion", Floor: 2, Run: ruleR064},
 			{ID: "R10.1a", Title: "generated closures store nothing into generator (compile time) scope", Floor: 25, Run: ruleR101closures},
+			{ID: "R10.1d", Title: "closure values built by built-ins during an evaluation keep no mutable state (no store into captured variables)", Floor: 1, Run: ruleR101closureValues},
+			{ID: "R09.1", Title: "list backing slices are never written in place (see C09)", Floor: 36, Run: ruleR091},
+			{ID: "R09.2", Title: "maps are never updated in place (see C09)", Floor: 40, Run: ruleR092},
+			{ID: "R09.3", Title: "language values other than List never append in place to a slice shared with their receiver (see C09)", Floor: 1, Run: ruleR093},
 		},
 	})
 	register(&Property{
@@ -136,6 +147,8 @@ func init() {
 			{ID: "R07.5", Title: "a rune that is written into a result is decoded from a string known to be non empty (must-analysis on the CFG)", Floor: 1, Run: ruleR075},
 			{ID: "R07.6", Title: "no address of an element of a slice is kept while the same function appends to that slice", Floor: 0, Run: ruleR076},
 			{ID: "R07.7", Title: "one number syntax: text to number conversions of the value package agree with the number parser of the language (kind and base)", Floor: 2, Run: ruleR077},
+			{ID: "R07.8", Title: "errors are not swallowed: no success return is reached from the non-nil branch of an error test without the error being used", Floor: 1, Run: ruleR078},
+			{ID: "R06.4", Title: "deep traversals of language values are complete: no success before the elements of a container were handed to the recursion", Floor: 2, Run: ruleR064},
 			{ID: "R13.1", Title: "key-domain agreement of the map storages (see C13)", Floor: 9, Run: ruleR131},
 			{ID: "R09.1", Title: "list backing slices are never written in place (see C09)", Floor: 36, Run: ruleR091},
 		},
@@ -151,6 +164,7 @@ func init() {
 			{ID: "R08.3", Title: "stop is propagated: no producer calls the consumer again after it answered false", Floor: 47, Run: ruleR083},
 			{ID: "R08.4", Title: "no list is rendered into a message (List.String iterates the list a second time)", Floor: 1, Run: ruleR084},
 			{ID: "R08.5", Title: "the error of a read-ahead element is not reported: an element independent exit that drops the pulled element precedes every forwarding of its error", Floor: 2, Run: ruleR085},
+			{ID: "R08.6", Title: "generated code of language constructs does not consume lists (no Eval/ToSlice/Size/deep evaluation inside generated closures)", Floor: 1, Run: ruleR086},
 			{ID: "R10.1b", Title: "stage producers modify only state created inside the producer (per iteration)", Floor: 23, Run: ruleR101stages},
 		},
 	})
@@ -162,6 +176,7 @@ func init() {
 		Rules: []*Rule{
 			{ID: "R09.1", Title: "list backing slices: in-place writes only on own allocations; new lists not backed by reused buffers; append trims the parent; ToSlice capped, CopyToSlice fresh", Floor: 36, Run: ruleR091},
 			{ID: "R09.2", Title: "maps are never updated in place: no receiver stores; ListMap.Append / Go map stores only on maps created by the function", Floor: 40, Run: ruleR092},
+			{ID: "R09.3", Title: "language values other than List never append to a slice field of their receiver or of a shallow copy of it without capping or cloning it", Floor: 1, Run: ruleR093},
 		},
 	})
 	register(&Property{
@@ -172,10 +187,13 @@ func init() {
 		Rules: []*Rule{
 			{ID: "R10.1a", Title: "generated closures store nothing into generator (compile time) scope", Floor: 25, Run: ruleR101closures},
 			{ID: "R10.1b", Title: "stage producers modify only state created inside the producer (per iteration)", Floor: 23, Run: ruleR101stages},
+			{ID: "R10.1d", Title: "closure values built by built-ins during an evaluation keep no mutable state (no store into captured variables)", Floor: 1, Run: ruleR101closureValues},
 			{ID: "R10.1c", Title: "evaluation code stores nothing into package level variables, generator fields or shared language values", Floor: 1, Run: ruleR101effects},
 			{ID: "R10.2", Title: "every Eval creates its own stack; no generator-owned stack is used by evaluation code", Floor: 2, Run: ruleR102},
+			{ID: "R10.2b", Title: "a stack never adopts a slice it does not own: NewStack(x...) only with a slice the calling function allocated itself", Floor: 3, Run: ruleR102b},
 			{ID: "R09.1", Title: "list backing slices are never written in place (see C09)", Floor: 36, Run: ruleR091},
 			{ID: "R09.2", Title: "maps are never updated in place (see C09)", Floor: 40, Run: ruleR092},
+			{ID: "R09.3", Title: "language values other than List never append to a slice field of their receiver or of a shallow copy of it without capping or cloning it", Floor: 1, Run: ruleR093},
 			{ID: "R01.2", Title: "closure context allocated per closure creation, slots in compile order (see C01)", Floor: 16, Run: ruleR012},
 		},
 	})
@@ -188,11 +206,15 @@ func init() {
 		Rules: []*Rule{
 			{ID: "R10.1a", Title: "generated closures store nothing into generator (compile time) scope", Floor: 25, Run: ruleR101closures},
 			{ID: "R10.1b", Title: "stage producers modify only state created inside the producer (per iteration)", Floor: 23, Run: ruleR101stages},
+			{ID: "R10.1d", Title: "closure values built by built-ins during an evaluation keep no mutable state (no store into captured variables)", Floor: 1, Run: ruleR101closureValues},
 			{ID: "R10.1c", Title: "evaluation code stores nothing into package level variables, generator fields or shared language values", Floor: 1, Run: ruleR101effects},
 			{ID: "R10.2", Title: "every Eval creates its own stack; no generator-owned stack is used by evaluation code", Floor: 2, Run: ruleR102},
+			{ID: "R10.2b", Title: "a stack never adopts a slice it does not own: NewStack(x...) only with a slice the calling function allocated itself", Floor: 3, Run: ruleR102b},
 			{ID: "R11.1", Title: "package level variables read by evaluation code are written once per process only (declaration, init, package level sync.Once)", Floor: 11, Run: ruleR111},
 			{ID: "R06.2", Title: "the List cache is accessed under its mutex only", Floor: 8, Run: ruleR062},
 			{ID: "R09.1", Title: "list backing slices are never written in place; an append into spare capacity happens inside the critical section that trims the parent (see C09)", Floor: 36, Run: ruleR091},
+			{ID: "R09.3", Title: "language values other than List never append in place to a slice shared with their receiver (see C09)", Floor: 1, Run: ruleR093},
+			{ID: "R09.2", Title: "maps are never updated in place (see C09)", Floor: 40, Run: ruleR092},
 			{ID: "R06.1", Title: "value stacks are goroutine confined at MapAuto/FilterAuto/Merge", Floor: 3, Run: ruleR061},
 			{ID: "R06.3", Title: "iterator pipelines with callbacks are constructed per iteration", Floor: 15, Run: ruleR063},
 		},
@@ -206,6 +228,8 @@ func init() {
 			{ID: "R12.1", Title: "tokenizer goroutine: closes its channel on every exit; Parse defers a blocking drain behind the start", Floor: 2, Run: ruleR121},
 			{ID: "R12.2", Title: "calls into the iterator dependency reach no goroutine with a defective termination protocol (ineffective break, blocked send)", Floor: 19, Run: ruleR122},
 			{ID: "R12.4", Title: "consumer goroutines are always fed: every path behind the spawn runs the CopyProducer feeding function", Floor: 1, Run: ruleR124},
+			{ID: "R12.5", Title: "pulled iterators are stopped: every path from iter.Pull/Pull2 to an exit of the function calls stop (or stop is deferred)", Floor: 0, Run: ruleR125},
+			{ID: "R06.4", Title: "deep traversals of language values are complete: no success before the elements of a container were handed to the recursion", Floor: 2, Run: ruleR064},
 		},
 	})
 	register(&Property{
@@ -219,6 +243,7 @@ func init() {
 			{ID: "R13.2", Title: "uniqueness: wrappers that add keys are dominated by a boolean presence test; map literals test before append", Floor: 5, Run: ruleR132},
 			{ID: "R13.3", Title: "representation independence: observers use the MapStorage interface only; flattening copies the abstract view", Floor: 3, Run: ruleR133},
 			{ID: "R09.2", Title: "maps are never updated in place (see C09)", Floor: 40, Run: ruleR092},
+			{ID: "R09.3", Title: "language values other than List never append to a slice field of their receiver or of a shallow copy of it without capping or cloning it", Floor: 1, Run: ruleR093},
 		},
 	})
 	register(&Property{
@@ -232,8 +257,10 @@ func init() {
 			{ID: "R14.3", Title: "registration/assertion agreement: operands are asserted to the Go type of their registered type id", Floor: 70, Run: ruleR143},
 			{ID: "R14.4", Title: "one equality, one ordering: all consumers call the registered operator object; no Go == on values", Floor: 3, Run: ruleR144},
 			{ID: "R14.7", Title: "container equality compares sizes before it can report equal", Floor: 2, Run: ruleR147},
+			{ID: "R14.8", Title: "searches decide by the equality function alone: no candidate is skipped before the registered equality was asked", Floor: 2, Run: ruleR148},
 			{ID: "R13.1", Title: "key-domain agreement of the map storages: map equality compares Size, Iter and Get (see C13)", Floor: 9, Run: ruleR131},
 			{ID: "R05.2", Title: "no use of a value before the error returned with it was compared with nil (see C05)", Floor: 20, Run: ruleR052},
+			{ID: "R02.8", Title: "first-match folding of switch nodes agrees with the run-time order of the equality tests (see C02)", Floor: 0, Run: ruleR028},
 		},
 	})
 	register(&Property{
@@ -249,6 +276,7 @@ func init() {
 			{ID: "R15.6", Title: "quoted identifiers denote their exact content (no keyword / text operator lookup)", Floor: 1, Run: ruleR156},
 			{ID: "R15.7", Title: "string literals and quoted identifiers are built from runes as written, not from the alias-replacing readers", Floor: 2, Run: ruleR157},
 			{ID: "R15.8", Title: "the image of a number or identifier consists of exactly the runes the matcher accepted (aliases in their ASCII form)", Floor: 1, Run: ruleR158},
+			{ID: "R15.9", Title: "string literals are decoded once: the string converter handed to the parser wraps the decoded text as it is", Floor: 1, Run: ruleR159},
 			{ID: "R03.6", Title: "implicit multiplication bookkeeping only in comfort mode (see C03)", Floor: 3, Run: ruleR036},
 		},
 	})
@@ -261,6 +289,7 @@ func init() {
 			{ID: "R01.4", Title: "captured-name agreement between parseLiteral and AddArgs (see C01)", Floor: 1, Run: ruleR014},
 			{ID: "R16.1", Title: "AddMap: constants/static functions of the wrapped scope win, all other names become attributes of the map", Floor: 1, Run: ruleR161},
 			{ID: "R16.2", Title: "GenerateWithMap: one name for stack argument and attribute owner; AddMap wraps the generator scope, arguments on top", Floor: 1, Run: ruleR162},
+			{ID: "R16.6", Title: "IsMap and AccessMap of a map handler recognise a map the same way (sibling agreement)", Floor: 1, Run: ruleR166},
 			{ID: "R16.3", Title: "closure scopes are used for the closure body only; outer names are deduplicated by the appended value", Floor: 4, Run: ruleR163},
 			{ID: "R16.4", Title: "every identifier resolved to an attribute is rewritten to a map access, whatever follows it", Floor: 2, Run: ruleR164},
 			{ID: "R16.5", Title: "scope links ask their parent for the looked up name itself (no renaming links: lexical scoping)", Floor: 5, Run: ruleR165},
@@ -277,6 +306,9 @@ func init() {
 			{ID: "R17.2", Title: "separator typestate of list and map exporters; matching brackets", Floor: 2, Run: ruleR172},
 			{ID: "R17.3", Title: "non-constant text reaches the JSON buffer only through the escaper", Floor: 10, Run: ruleR173},
 			{ID: "R17.4", Title: "generic traversal: Close on every successful path behind Open; only present keys are exported", Floor: 3, Run: ruleR174},
+			{ID: "R07.8", Title: "errors are not swallowed: no success return is reached from the non-nil branch of an error test without the error being used", Floor: 1, Run: ruleR078},
+			{ID: "R17.5", Title: "nothing that is handed back to a sync.Pool is returned (no result refers to pooled memory)", Floor: 0, Run: ruleR175},
+			{ID: "R17.6", Title: "the Custom hook of the JSON exporter does not take over the scalar types of the value package (scalars are written as their ToString form by the traversal)", Floor: 1, Run: ruleR176},
 			{ID: "R07.2", Title: "stores into fields of a value receiver are not lost: exporter state survives Add (see C07)", Floor: 0, Run: ruleR072},
 			{ID: "R13.1", Title: "key-domain agreement of the map storages (see C13)", Floor: 9, Run: ruleR131},
 		},
@@ -293,6 +325,8 @@ func init() {
 			{ID: "R18.4", Title: "elements are balanced: every function changes the depth by exactly its role on non-failing paths", Floor: 15, Run: ruleR184},
 			{ID: "R18.5", Title: "ToHtml recovers panics into its error result", Floor: 1, Run: ruleR185},
 			{ID: "R18.6", Title: "the XML name validator accepts only XML name characters (value-set analysis of its condition over all code points)", Floor: 1, Run: ruleR186},
+			{ID: "R07.8", Title: "errors are not swallowed: no success return is reached from the non-nil branch of an error test without the error being used", Floor: 1, Run: ruleR078},
+			{ID: "R17.5", Title: "nothing that is handed back to a sync.Pool is returned (no result refers to pooled memory)", Floor: 0, Run: ruleR175},
 			{ID: "R07.2", Title: "stores into fields of a value receiver are not lost: exporter state survives Add (see C07)", Floor: 0, Run: ruleR072},
 			{ID: "R05.10", Title: "a recovered panic is reported on every path: a result the caller sees is set (see C05)", Floor: 8, Run: ruleR0510},
 		},
@@ -314,6 +348,8 @@ func init() {
 			{ID: "R02.2", Title: "regroup guard (see C02)", Floor: 2, Run: ruleR022},
 			{ID: "R02.3", Title: "purity propagation (see C02)", Floor: 15, Run: ruleR023},
 			{ID: "R02.7", Title: "subtree promotion only under the generated code's own condition (see C02)", Floor: 2, Run: ruleR027},
+			{ID: "R02.8", Title: "first-match folding of switch nodes (see C02)", Floor: 0, Run: ruleR028},
+			{ID: "R10.2b", Title: "a stack never adopts a slice it does not own (see C10)", Floor: 3, Run: ruleR102b},
 			{ID: "R03.1", Title: "one recursion level per operator (see C03)", Floor: 3, Run: ruleR031},
 			{ID: "R03.2", Title: "left associative accumulation loop (see C03)", Floor: 7, Run: ruleR032},
 			{ID: "R03.3", Title: "prefix operators (see C03)", Floor: 3, Run: ruleR033},
@@ -330,6 +366,7 @@ func init() {
 			{ID: "R20.6", Title: "getDescr(i) describes the interval getIndex maps to i", Floor: 3, Run: ruleR206},
 			{ID: "R20.2", Title: "bins are indexed by getIndex results of the matching axis; Add accumulates exactly once; rows are separate allocations", Floor: 12, Run: ruleR202},
 			{ID: "R20.3", Title: "collectBinning accumulates element-wise under equal lengths", Floor: 2, Run: ruleR203},
+			{ID: "R20.7", Title: "sums are published as accumulated: the float of a bin becomes a value by a plain conversion, no arithmetic on the way", Floor: 2, Run: ruleR207},
 			{ID: "R05.4", Title: "counts are range checked before make (see C05)", Floor: 4, Run: ruleR054},
 			{ID: "R09.1", Title: "list backing slices are never written in place (see C09)", Floor: 36, Run: ruleR091},
 			{ID: "R13.1", Title: "key-domain agreement of the map storages, incl. the bin description (see C13)", Floor: 9, Run: ruleR131},
